@@ -1,6 +1,6 @@
 (* Entry points evaluated by the correspondence harness (harness/c16.py). *)
 From Coq Require Import NArith List String Bool.
-From Verif Require Import Base.Chars Base.Show Livepatch.Heap Livepatch.Patch Livepatch.Xreload.
+From Verif Require Import Base.Chars Base.Show Livepatch.Heap Livepatch.Patch Livepatch.Xreload Livepatch.Wf.
 Import ListNotations.
 Open Scope string_scope.
 
@@ -40,7 +40,7 @@ Definition run_xreload (h1 : heap) (reg : list (key * addr)) (name : key) (modul
                        (er_fail : option (nat * N)) (h0 : heap) : string :=
   let er := match er_fail with Some i => ExecFail (fst i) (snd i) h1 | None => ExecOk h1 end in
   let '(w, out) := xreload (pairs_ok bases) nm (S (List.length h1)) (mkW h0 reg) name module scratch k_loadtime mtime_obj er in
-  show_obj [("outcome", show_outcome out); ("heap", show_heap (wheap w)); ("registry", show_kvs (wreg w))].
+  show_obj [("wf", show_bool (wf_heap h1)); ("outcome", show_outcome out); ("heap", show_heap (wheap w)); ("registry", show_kvs (wreg w))].
 
 Definition run_decide (force : bool) (loadtime mtime : N) (cached_same : bool) : string :=
   match decide force loadtime mtime cached_same with
